@@ -1,27 +1,28 @@
 #!/bin/bash
-# usage: run_baseline.sh <qrlew checkout dir>   — runs the 403 baseline tests (skipping the 74 that need PostgreSQL) offline
-# prints "BASELINE OK" if all 403 pass.
+# usage: run_baseline.sh <qrlew checkout dir>   — runs the 403 baseline tests (all are lib unit tests; the 74 tests that
+# need PostgreSQL/docker are skipped by exact name) offline; prints "BASELINE OK" if all 403 pass.
 DIR=${1:-/repo}
 cd "$DIR" || exit 2
-python3 - <<'PY' > /tmp/vtools/skip_args.txt
+SK=$(mktemp)
+python3 - > $SK <<'PY'
 import json
 b=json.load(open('/root/.vp/BASELINE.json'))
-print(' '.join('--skip '+'::'.join(x.split('::')[1:]) for x in b['always_fail']))
+print(' '.join('--skip '+'::'.join(x.split('::')[1:]) for x in b['always_fail'] if x.startswith('qrlew::')))
 PY
 export CARGO_NET_OFFLINE=true
 OUT=$(mktemp)
-cargo test --workspace --no-fail-fast --offline -- $(cat /tmp/vtools/skip_args.txt) 2>&1 | grep -E "^test |test result" > $OUT
+timeout 3000 cargo test --offline --lib -- --exact $(cat $SK) 2>&1 | grep -E "^test |test result" > $OUT
 python3 - "$OUT" <<'PY'
 import json,sys,re
 b=json.load(open('/root/.vp/BASELINE.json'))
 want=set('::'.join(x.split('::')[1:]) for x in b['stable_pass'])
 ok=set(); failed=set()
 for l in open(sys.argv[1]):
-    m=re.match(r'test (\S+) \.\.\. (\w+)',l)
+    m=re.match(r'test (\S+)(?: - should panic)? \.\.\. (\w+)',l)
     if m:
         (ok if m.group(2)=='ok' else failed).add(m.group(1))
 missing=[w for w in want if w not in ok]
-print('passed',len(ok),'failed',len(failed),'baseline tests not passing:',len(missing))
+print('passed',len(ok),'failed',len(failed),'baseline tests:',len(want),'not passing:',len(missing))
 for m in sorted(missing)[:30]: print('  NOT PASSING:',m)
 print('BASELINE OK' if not missing else 'BASELINE BROKEN')
 PY
